@@ -32,7 +32,7 @@ VARIABLES prog, phase, active, vslot, vpath, viol
 
 vars == <<prog, phase, active, vslot, vpath, viol>>
 
-Enums == {"Ea", "Eb", "Ec"}
+Enums == {"Ea", "Eb", "Ec", "Ed"}
 
 LeafSet == {Leaves[i] : i \in {j \in 1..Len(Leaves) : Leaves[j].name \in LeafNames}}
 
@@ -106,7 +106,7 @@ Paths(e) ==
 ---------------------------------------------------------------------------
 \* type-directed choices for one hole
 
-EnumsIn(c) == IF c = "CA" THEN {"Eb", "Ec"} ELSE Enums
+EnumsIn(c) == IF c = "CA" THEN {"Eb", "Ec", "Ed"} ELSE Enums
 
 LeafChoices(tag, c) ==
   CASE tag = "Int" ->
@@ -146,7 +146,7 @@ OpChoices(tag, d, c) ==
 
 Choices(tag, d, c) ==
   IF tag = "Any"
-  THEN UNION {LeafChoices(t, c) \cup OpChoices(t, d, c) : t \in {"Int", "Bool", "Ea", "Eb"}}
+  THEN UNION {LeafChoices(t, c) \cup OpChoices(t, d, c) : t \in {"Int", "Bool", "Ea", "Eb", "Ed"}}
   ELSE LeafChoices(tag, c) \cup OpChoices(tag, d, c)
 
 (***************************************************************************)
@@ -257,7 +257,8 @@ BadBool(sub, c) ==
 \cup {V("ord_enum", EOp(fn, <<WEnum(AnEnum(c)), EEv(AnEnum(c), 2)>>)) : fn \in Ords}
 \cup {V("ord_operand", EOp(fn, <<WInt, w>>)) : fn \in Ords, w \in NotInt(c)}
 \cup {V("ord_operand", EOp(fn, <<w, WInt>>)) : fn \in Ords, w \in NotInt(c)}
-\cup {V("eq_mixed_enum", EOp(fn, <<WEnum(AnEnum(c)), WEnum(OtherEnum(AnEnum(c), c))>>)) : fn \in {"==", "!="}}
+\cup {V("eq_mixed_enum", EOp(fn, <<WEnum(xy[1]), WEnum(xy[2])>>)) :
+         fn \in {"==", "!="}, xy \in {q \in EnumsIn(c) \X EnumsIn(c) : q[1] # q[2]}}
 \cup {V("eq_operand", EOp(fn, <<sub, w>>)) : fn \in {"==", "!="}, w \in NotBool(c)}
 \cup {V("eq_operand", EOp(fn, <<WInt, WEnum(AnEnum(c))>>)) : fn \in {"==", "!="}}
 \cup (IF c = "S" THEN {V("eq_operand", EOp(fn, <<WOpq, WOpq>>)) : fn \in {"==", "!="}} ELSE {})
@@ -271,7 +272,7 @@ BadBool(sub, c) ==
 
 BadEnum(sub, en, c) ==
      {V("choice_cond", EOp("?:", <<w, sub, sub>>)) : w \in NotBool(c)}
-\cup {V("choice_branches", EOp("?:", <<WBool, sub, w>>)) : w \in {WInt, WBool, WEnum(OtherEnum(en, c))}}
+\cup {V("choice_branches", EOp("?:", <<WBool, sub, w>>)) : w \in {WInt, WBool} \cup {WEnum(x) : x \in EnumsIn(c) \ {en}}}
 
 \* a well-typed expression of a type the position does not accept (root of a slot only)
 BadPosition(slot, c) ==
@@ -286,7 +287,7 @@ BadPosition(slot, c) ==
     [] slot \in {"abo", "atxt"} -> {V(SiteRule(slot), w) : w \in {WInt, WBool}}
     [] slot = "arg1" -> {V("param_type", w) : w \in {WBool, WEnum("Ea"), WOpq}}
     [] slot = "arg2" -> {V("param_type", w) : w \in {WInt, WBool, WOpq}}
-                        \cup {V("param_enum_mismatch", WEnum("Eb"))}
+                        \cup {V("param_enum_mismatch", WEnum("Eb")), V("param_enum_mismatch", WEnum("Ed"))}
     [] OTHER -> {}
 
 BadNode(sub, ty, c) ==
